@@ -256,6 +256,34 @@ def run_config(chk, facts, cfg):
         chk.ob("C12-b", f"RwLock::write on the metrics memo only in its getter: {sorted(w.split('::')[-1] for w in writers)}",
                writers <= {"skrifa::outline::autohint::metrics::UnscaledStyleMetricsSet::get"} and bool(writers), key="memo|writers",
                detail=f"writers: {sorted(writers)}")
+        # what is stored into the memo: only Some(<result of compute_unscaled_style_metrics>)
+        getter = facts.body("skrifa::outline::autohint::metrics::UnscaledStyleMetricsSet::get")
+        n_st = 0
+        if getter is not None:
+            from ..guards import expr_mentions_call
+            for bb, j, st in getter.stmts():
+                if st[0] != "A" or not st[1][1] or st[1][1][0] != "*":
+                    continue
+                rv = st[2]
+                src_ty = None
+                e = None
+                if rv[0] == "use" and rv[1][0] in ("c", "m") and not rv[1][1][1]:
+                    src_ty = getter.locals[rv[1][1][0]][0]
+                    e = expr_of(getter, rv[1])
+                elif rv[0] == "agg":
+                    e = ("agg", tuple(rv[1]), [expr_of(getter, o) for o in rv[2]])
+                    src_ty = "core::option::Option<" if rv[1][0] == "adt" and rv[1][1] == "core::option::Option" else None
+                if not src_ty or "Option<" not in src_ty or e is None:
+                    continue
+                if "UnscaledStyleMetrics" not in (src_ty + getter.locals[st[1][0]][0]):
+                    continue
+                n_st += 1
+                ok = e[0] == "agg" and len(e[1]) > 3 and e[1][3] == "Some" and expr_mentions_call(e, ["scale::compute_unscaled_style_metrics"])
+                chk.ob("C12-b", f"memo store at line {st[3][0]} is Some(compute_unscaled_style_metrics(..))", ok, key=f"memo|store|{n_st}",
+                       file=getter.file, line=st[3][0], fn=getter.path,
+                       detail="a value other than the finished metrics is stored into the shared memo: a concurrent draw of the same "
+                              "style can observe it, so results depend on thread interleaving")
+            chk.floor("C12-b", "stores into the metrics memo", n_st, 1)
     nstat = 0
     for r in facts.records("static", "skrifa"):
         nstat += 1
